@@ -487,6 +487,13 @@ func scenario(c *run.Ctx, idx int) {
 			return
 		}
 		base := res.Block
+		if _, err := fx.WireE(base, true); err != nil {
+			// consequence of C11's known finding (negative vote count): the change logs of this honest block
+			// cannot be encoded. Not a validation verdict; the scenario stops here (same rule as in C01).
+			c.Stat("base_block_with_unencodable_logs", 1)
+			c.Note("scenario stopped: change logs of an honest block cannot be encoded: " + err.Error())
+			return
+		}
 		for i, e := range cl.InsertAll(base) {
 			if e != nil {
 				c.Note(fmt.Sprintf("node %d rejected the honest base block: %v", i, e))
